@@ -147,3 +147,103 @@ pub proof fn step_move_target_free(w1: DW, ns: usize)
     assert(w1.r() == w1.others.insert(w1.start, w1.reserved));
     lemma_finish_move(w1.others, w1.start, w1.reserved, w1.h, w1.p, w1.v, ns, w1.v[ns]);
 }
+
+// remove: this region's extent becomes a pending hole
+pub proof fn step_remove(w0: DW, w: DW)
+    requires
+        w0.inv(), w0.in_file(), w.others == w0.others, w.my_key is None, w.h == w0.h, w.v == w0.v,
+        w.p == w0.p.insert(w0.start, w0.reserved), w.file_len == w0.file_len,
+    ensures w.inv_gone(), w.in_file()
+{
+    let r0 = w0.others.insert(w0.start, w0.reserved);
+    assert(w0.r() == r0);
+    lemma_region_to_pending(r0, w0.h, w0.p, w0.v, w0.start);
+    assert(r0.remove(w0.start) =~= w0.others);
+    assert(r0[w0.start] == w0.reserved);
+    assert(w.r() == w0.others);
+    assert(aligned_map(w.p));
+    // lemma_region_to_pending proves the cover equivalence internally; redo it here for in_file
+    assert forall|x: int| cover4(w.r(), w.h, w.p, w.v, x) implies x < w.file_len by {
+        lemma_cover_insert(w0.others, w0.start, w0.reserved, x);
+        assert(!w0.p.contains_key(w0.start)) by { if w0.p.contains_key(w0.start) { assert(r0.contains_key(w0.start) && w0.p.contains_key(w0.start)); assert(w0.p[w0.start] > 0 && r0[w0.start] > 0); } }
+        lemma_cover_insert(w0.p, w0.start, w0.reserved, x);
+        assert(cover4(r0, w0.h, w0.p, w0.v, x));
+    }
+}
+
+// create, first half: the place for the new region is a reservation-shaped step (L3 or L4) followed by L8
+pub proof fn step_create_in_hole(w0: DW, w: DW, s: usize)
+    requires
+        w0.inv_gone(), w0.in_file(), w.others == w0.others, w.my_key == Some(s), w.start == s, w.len == 0, w.reserved == 4096,
+        w0.h.contains_key(s), w0.h[s] >= 4096, w.h == compressed(w0.h, s, 4096), w.p == w0.p, w.v == w0.v, w.file_len == w0.file_len,
+    ensures w.inv(), w.in_file()
+{
+    let n: usize = 4096;
+    lemma_hole_to_reserved(w0.others, w0.h, w0.p, w0.v, s, n);
+    lemma_tiles_parts(w0.others, w0.h, w0.p, w0.v);
+    lemma_compress_aligned(w0.h, s, n);
+    let v1 = w0.v.insert(s, n);
+    lemma_reserved_to_region(w0.others, w.h, w0.p, v1, s);
+    assert(v1.remove(s) =~= w0.v);
+    assert(w0.r() == w0.others);
+    assert(w.r() == w0.others.insert(s, n));
+    assert forall|x: int| cover4(w.r(), w.h, w.p, w.v, x) implies x < w.file_len by {
+        assert(cover4(w0.others.insert(s, v1[s]), w.h, w0.p, v1.remove(s), x));
+        assert(cover4(w0.others, compressed(w0.h, s, n), w0.p, v1, x));
+        assert(cover4(w0.others, w0.h, w0.p, w0.v, x));
+    }
+}
+pub proof fn step_create_at_end(w0: DW, w: DW, e: usize)
+    requires
+        w0.inv_gone(), w0.in_file(), w.others == w0.others, w.my_key == Some(e), w.start == e, w.len == 0, w.reserved == 4096,
+        w.h == w0.h, w.p == w0.p, w.v == w0.v, w.file_len == w0.file_len, e + 4096 <= w0.file_len, e + 4096 <= usize::MAX,
+        forall|a: usize| w0.others.contains_key(a) ==> a + w0.others[a] <= e, forall|a: usize| w0.h.contains_key(a) ==> a + w0.h[a] <= e,
+        forall|a: usize| w0.p.contains_key(a) ==> a + w0.p[a] <= e, forall|a: usize| w0.v.contains_key(a) ==> a + w0.v[a] <= e,
+        e == 0 || cover4(w0.others, w0.h, w0.p, w0.v, e - 1),
+    ensures w.inv(), w.in_file()
+{
+    let n: usize = 4096;
+    assert(w0.r() == w0.others);
+    lemma_end_aligned(w0.others, w0.h, w0.p, w0.v, e);
+    lemma_append_reserve(w0.others, w0.h, w0.p, w0.v, e, n);
+    let v1 = w0.v.insert(e, n);
+    lemma_reserved_to_region(w0.others, w0.h, w0.p, v1, e);
+    assert(v1.remove(e) =~= w0.v);
+    assert(w.r() == w0.others.insert(e, n));
+    assert forall|x: int| cover4(w.r(), w.h, w.p, w.v, x) implies x < w.file_len by {
+        assert(cover4(w0.others.insert(e, v1[e]), w0.h, w0.p, v1.remove(e), x));
+        assert(cover4(w0.others, w0.h, w0.p, v1, x));
+        if !(e <= x < e + n) { assert(cover4(w0.others, w0.h, w0.p, w0.v, x)); }
+    }
+}
+
+pub proof fn step_in_file_grow(a: DW, b: DW)
+    requires a.in_file(), b.r() == a.r(), b.h == a.h, b.p == a.p, b.v == a.v, b.file_len >= a.file_len
+    ensures b.in_file()
+{ }
+
+// create: the chosen start is page-aligned and not the start of a live region
+pub proof fn step_create_target_hole(w1: DW, s: usize)
+    requires w1.inv_gone(), w1.h.contains_key(s), w1.h[s] >= 4096
+    ensures s % 4096 == 0, !w1.others.contains_key(s)
+{
+    lemma_hole_to_reserved(w1.others, w1.h, w1.p, w1.v, s, 4096);
+    lemma_reserved_to_region(w1.others, compressed(w1.h, s, 4096), w1.p, w1.v.insert(s, 4096), s);
+}
+pub proof fn step_create_target_end(w1: DW, e: usize, e0: usize)
+    requires
+        w1.inv_gone(), w1.in_file(),
+        forall|a: usize| w1.others.contains_key(a) ==> a + w1.others[a] <= e, forall|a: usize| w1.h.contains_key(a) ==> a + w1.h[a] <= e,
+        forall|a: usize| w1.p.contains_key(a) ==> a + w1.p[a] <= e, forall|a: usize| w1.v.contains_key(a) ==> a + w1.v[a] <= e,
+        e == 0 || cover4(w1.others, w1.h, w1.p, w1.v, e - 1),
+        // e0: what layout.len() returned before the file was extended, in the same layout
+        forall|a: usize| w1.others.contains_key(a) ==> a + w1.others[a] <= e0, forall|a: usize| w1.h.contains_key(a) ==> a + w1.h[a] <= e0,
+        forall|a: usize| w1.p.contains_key(a) ==> a + w1.p[a] <= e0, forall|a: usize| w1.v.contains_key(a) ==> a + w1.v[a] <= e0,
+    ensures e % 4096 == 0, !w1.others.contains_key(e), e <= e0, e <= w1.file_len
+{
+    assert(w1.r() == w1.others);
+    lemma_end_aligned(w1.others, w1.h, w1.p, w1.v, e);
+    lemma_end_unique(w1.others, w1.h, w1.p, w1.v, e, e0);
+    lemma_tiles_parts(w1.others, w1.h, w1.p, w1.v);
+    if w1.others.contains_key(e) { assert(w1.others[e] > 0); }
+}
